@@ -81,6 +81,42 @@ def run_property(prop, tier, seed, only=None):
         write_evidence(prop, tier, seed, spec, [], prep, time.time() - t0, 0, note="encoding failed: " + prep["error"])
         return 2
 
+    # C16: diagnostic corpus - the real public entry point run natively on grammars that must be
+    # answered with a parser or an Err (concrete falsification device, labelled as such)
+    diag_rc, diag_known = 0, []
+    if prop == "C16" and not only:
+        import gen_e4
+        known_ = load_known()
+        recs = gen_e4.run_diag_corpus()
+        bad = [r for r in recs if r["outcome"] in ("panic", "abort")]
+        fresh = []
+        for r in bad:
+            k = match_known(known_, prop, "diag-corpus", "%s %s" % (r["grammar"], r["where"]))
+            if k:
+                diag_known.append(k)
+            else:
+                fresh.append(r)
+        prep["diag_corpus"] = {
+            "what": "Settings::process_grammar (real public entry point, native build, under catch_unwind) on /verif/corpus/diag x %d settings; NOT a solver verdict" % len(gen_e4.DIAG_ARGS),
+            "runs": len(recs), "parser": sum(r["outcome"] == "parser" for r in recs), "diagnostic": sum(r["outcome"] == "diagnostic" for r in recs),
+            "panic_known": len(bad) - len(fresh), "panic_new": len(fresh), "timeout": sum(r["outcome"] == "timeout" for r in recs),
+        }
+        if fresh:
+            os.makedirs(os.path.join(WORK, "replays"), exist_ok=True)
+            path = os.path.join(WORK, "replays", "C16-diag-corpus.json")
+            json.dump({"property": "C16", "harness": "diag-corpus (native run of the real compiler; not a solver verdict)",
+                       "failed_checks": [{"description": "the compiler panicked instead of returning a parser or a diagnostic: %s %s: %s" % (r["grammar"], " ".join(r["args"]), r["where"])} for r in fresh],
+                       "reproduced_natively": ["%s %s" % (r["grammar"], " ".join(r["args"])) for r in fresh],
+                       "how_to_replay": "%s /verif/corpus/diag/<grammar> --out /dev/null --gen <scratch dir> <args>  (exit status 4 = panic in process_grammar)" % os.path.join(WORK, "target-native", "release", "vdump")},
+                      open(path, "w"), indent=1)
+            for r in fresh[:6]:
+                print("  the real compiler PANICKED on diag grammar %s %s: %s" % (r["grammar"], " ".join(r["args"]), r["where"]))
+            print("VIOLATION property=C16 replay=%s" % path)
+            diag_rc = 1
+        elif any(r["outcome"] == "timeout" for r in recs):
+            print("INCONCLUSIVE: property=C16 diag-corpus: a compiler run timed out")
+            diag_rc = 2
+
     results = []
     jobs = int(os.environ.get("VERIF_JOBS", str(kani.SLOTS)))
     with cf.ThreadPoolExecutor(max_workers=jobs) as ex:
@@ -179,6 +215,8 @@ def run_property(prop, tier, seed, only=None):
         rc = 1
 
     seen = set()
+    for k in diag_known:
+        known_hits.append((k, None, None))
     for k, r, c in known_hits:
         if k["id"] in seen:
             continue
@@ -190,6 +228,11 @@ def run_property(prop, tier, seed, only=None):
             print("INCONCLUSIVE: property=%s harness=%s %s (log %s)" % (prop, r["spec"]["name"], why, r["log"]))
         rc = 2
 
+    if diag_rc == 1:
+        rc = 1
+        replay_paths.append(os.path.join(WORK, "replays", "C16-diag-corpus.json"))
+    elif diag_rc == 2 and rc == 0:
+        rc = 2
     write_evidence(prop, tier, seed, spec, results, prep, time.time() - t0, len(replay_paths),
                    known=[k["id"] for k, _, _ in known_hits], inconclusive=[(r["spec"]["name"], w) for r, w in inconclusive])
     return rc
@@ -235,6 +278,7 @@ def write_evidence(prop, tier, seed, spec, results, prep, wall, violations, note
             "functions_encoded": functions,
             "slices": prep.get("slices", {}),
             "generated": prep.get("generated", {}),
+            "diag_corpus": prep.get("diag_corpus", {}),
             "harnesses": len(results),
             "obligations": n_obl,
             "discharged": n_dis,
